@@ -31,11 +31,10 @@ from __future__ import annotations
 import ast
 import builtins
 import math
-import os
 import sys
 
 from pyvc.core import And, ExcVal, Iff, Implies, Not, Or, Outcome, PyRaise, SStr, Unreached
-from pyvc.harness import harness, native, stubclass
+from pyvc.harness import harness, stubclass
 from pyvc.interp import Closure
 
 PROP = 'C11'
@@ -1045,6 +1044,8 @@ def _is_instance(v, o, dotted):
 
 @harness(PROP, HANDLERS + '.__init__', setup=_handlers_setup)
 def handlers_init(v):
+    touch(v, HANDLERS + '.__setitem__')
+    touch(v, HANDLERS + '._create_resolver')
     g = ghost_of(v)
     k = v.choose(4, 'initial')  # None, {}, one entry, two entries
     initial = None if k == 0 else dict(_entries(v, k - 1))
@@ -1062,7 +1063,8 @@ def handlers_init(v):
         v.check('defaults-are-json-multipart-urlencoded',
                 isinstance(data, dict) and sorted(data) == sorted(DEFAULTS) and all(_is_instance(v, data[t], DEFAULTS[t]) for t in DEFAULTS if t in data))
         v.cover('defaults')
-    v.check('every-initial-entry-went-through-setitem', writes_go_through_items(v, g, h) or all(op == 'self.data = ...' or any(n in st for n in (VIA if not v.concrete else ('Handlers.__setitem__',))) for o, op, st in g.writes if o is h))
+    item_writes = [(o, op, st) for o, op, st in g.writes if o is h and op != 'self.data = ...']
+    v.check('every-initial-entry-went-through-setitem', len(item_writes) == len(data) and all(any('Handlers.__setitem__' in fn for fn in st) for o, op, st in item_writes))
     check_coherent(v, g, h)
 
 
@@ -1075,6 +1077,8 @@ def _copy(v, g, h):
 
 @harness(PROP, HANDLERS + '.copy', setup=_handlers_setup)
 def handlers_copy(v):
+    for fn in ('.__init__', '.__setitem__', '._create_resolver'):
+        touch(v, HANDLERS + fn)
     g = ghost_of(v)
     entries = _entries(v)
     h, lru, e0 = mk_handlers(v, g, entries)
@@ -1101,6 +1105,8 @@ def handlers_copy(v):
 
 
 def _mixin_world(v):
+    touch(v, HANDLERS + '.__setitem__')
+    touch(v, HANDLERS + '.__delitem__')
     g = ghost_of(v)
     entries = _entries(v)
     h, lru, e0 = mk_handlers(v, g, entries)
@@ -1295,8 +1301,9 @@ class BestMatchContract:
 
     def __call__(self, media_types, header):
         v = self.v
-        cands = list(media_types)
         self.calls.append((media_types, header))
+        # anything but a list / tuple of candidates is a caller error (flagged by the caller's clause on `calls`)
+        cands = list(media_types) if isinstance(media_types, (list, tuple)) else []
         if self.fixed is not None:
             self.result = self.fixed
             return self.result
@@ -1332,6 +1339,7 @@ def _make_resolver(v, g, h):
 
 @harness(PROP, HANDLERS + '._create_resolver', name='resolve', setup=_handlers_setup)
 def handlers_resolve(v):
+    touch(v, H_MOD + ':_best_match')
     H415 = v.real('falcon.errors:HTTPUnsupportedMediaType')
     g = ghost_of(v)
     h, lru0, e0 = mk_handlers(v, g, [])
@@ -1429,6 +1437,9 @@ HISTORY_OPS = ['replace', 'delete', 'pop', 'clear', 'update', 'popitem-all', 'se
 
 @harness(PROP, HANDLERS + '.__init__', name='history_never_stale', setup=_handlers_setup)
 def history_never_stale(v):
+    for fn in ('.__setitem__', '.__delitem__', '.copy', '._create_resolver'):
+        touch(v, HANDLERS + fn)
+    touch(v, H_MOD + ':_best_match')
     g = ghost_of(v)
     A, B, N = Handler('A'), Handler('B'), Handler('N')
     K0, K1 = KEYS[0], KEYS[1]
@@ -1506,6 +1517,7 @@ def _accept_env(v):
 
 @harness(PROP, REQ + '.client_accepts', inline=[REQ + '.accept'], setup=_mediatypes_setup)
 def client_accepts(v):
+    touch(v, REQ + '.accept')
     InvalidMediaType = v.real('falcon.errors:InvalidMediaType')
     InvalidMediaRange = v.real('falcon.errors:InvalidMediaRange')
     env, accept = _accept_env(v)
@@ -1548,6 +1560,7 @@ def client_accepts(v):
 
 @harness(PROP, REQ + '.client_prefers', inline=[REQ + '.accept'], setup=_mediatypes_setup)
 def client_prefers(v):
+    touch(v, REQ + '.accept')
     InvalidMediaType = v.real('falcon.errors:InvalidMediaType')
     env, accept = _accept_env(v)
     req = v.obj(REQ, env=env)
@@ -1567,3 +1580,276 @@ def client_prefers(v):
     else:
         v.check('returns-the-best-match', out.value is bm.result)
         v.cover('preferred')
+
+
+# ---------------------------------------------------------------------------
+# bounded stand-in (NOT a proof): text level.  parse_header / _parse_media_type_header / header.split(',') are string
+# scanners out of reach of the executor; here headers are *generated from structure* (so the expected result is computed from
+# the structure with the specification above, never by re-parsing) and compared with quality / best_match on the text.
+
+
+def _ref_score(rng, typ):
+    (rm, rs, rp, rq), (tm, ts, tp) = rng, typ
+    if rm != '*' and tm != '*' and rm != tm:
+        return None
+    if rs != '*' and ts != '*' and rs != ts:
+        return None
+    shared = set(rp) & set(tp)
+    if any(rp[k] != tp[k] for k in shared):
+        return None
+    return (int(rm != '*' and tm != '*'), int(rs != '*' and ts != '*'), int(set(rp) == set(tp)), len(shared), rq)
+
+
+def _ref_quality(typ, ranges):
+    scores = [s for s in (_ref_score(r, typ) for r in ranges) if s is not None]
+    return max(scores)[-1] if scores else 0.0
+
+
+def _gen_token(rnd):
+    return rnd.choice(['text', 'application', 'image', 'x-a', 'b.c+json', 'plain', 'html', 'json', 'v1'])
+
+
+def _gen_ws(rnd):
+    return rnd.choice(['', '', '', ' ', '  ', '\t'])
+
+
+def _gen_value(rnd):
+    """(text, value): a token, or a quoted string (no comma inside: see NOT_DECIDED)."""
+    if rnd.random() < 0.6:
+        val = rnd.choice(['utf-8', '1', '2', 'a', 'UTF-8', 'x.y'])
+        return val, val
+    val = rnd.choice(['a b', 'x;y', 'k=v', 'say "hi"', 'back\\slash', '', 'plain', 'q=0.1'])
+    return '"' + val.replace('\\', '\\\\').replace('"', '\\"') + '"', val
+
+
+def _gen_params(rnd, names):
+    text, params = '', {}
+    for name in rnd.sample(names, rnd.choice([0, 0, 1, 1, 2])):
+        vt, val = _gen_value(rnd)
+        shown = rnd.choice([name, name.upper(), name.capitalize()])
+        text += '%s;%s%s%s=%s%s' % (_gen_ws(rnd), _gen_ws(rnd), shown, '', vt, '')
+        params[name] = val
+    return text, params
+
+
+Q_FORMS = [('0', 0.0), ('1', 1.0), ('0.5', 0.5), ('0.25', 0.25), ('0.125', 0.125), ('1.0', 1.0), ('1.000', 1.0), ('0.', 0.0), ('0.3333', 0.3333),
+           ('0.001', 0.001), ('0.000', 0.0), ('.7', 0.7), ('1e-1', 0.1)]
+Q_BAD = ['1.5', '-0.1', 'abc', '', 'nan', 'inf', '-inf', '2', '1.0001', '0,5']
+
+
+def _gen_range(rnd):
+    """(text, (main, sub, params, q)) or (text, None) for a member that must be rejected."""
+    r = rnd.random()
+    if r < 0.08:
+        return rnd.choice(['garbage', 'text', '', ' ', 'text;q=0.5']), None
+    main = '*' if rnd.random() < 0.25 else _gen_token(rnd)
+    sub = '*' if (main == '*' or rnd.random() < 0.3) else _gen_token(rnd)
+    if main == '*' and rnd.random() < 0.2:
+        text = '*'
+    else:
+        text = main + '/' + sub
+    ptext, params = _gen_params(rnd, ['charset', 'version', 'profile'])
+    text += ptext
+    q = 1.0
+    if rnd.random() < 0.6:
+        if rnd.random() < 0.1:
+            bad = rnd.choice(Q_BAD)
+            if ',' in bad:
+                return text + ';q=' + bad, None
+            return text + '%s;%sq=%s' % (_gen_ws(rnd), _gen_ws(rnd), bad), None
+        qt, q = rnd.choice(Q_FORMS)
+        text += '%s;%s%s=%s' % (_gen_ws(rnd), _gen_ws(rnd), rnd.choice(['q', 'Q']), qt)
+        if rnd.random() < 0.2:  # a parameter after q (an "accept-ext" in RFC 7231 terms): an ordinary parameter for this code
+            vt, val = _gen_value(rnd)
+            text += ';ext=' + vt
+            params['ext'] = val
+    return _gen_ws(rnd) + text + _gen_ws(rnd), (main, sub, params, q)
+
+
+def _gen_type(rnd):
+    if rnd.random() < 0.05:
+        return rnd.choice(['nonsense', '', 'text']), None
+    main, sub = _gen_token(rnd), _gen_token(rnd)
+    if rnd.random() < 0.08:
+        sub = '*'
+        if rnd.random() < 0.5:
+            main = '*'
+    ptext, params = _gen_params(rnd, ['charset', 'version', 'profile'])
+    return main + '/' + sub + ptext, (main, sub, params)
+
+
+def bounded(tier, seed, overlay_dir):
+    import random
+    import importlib
+
+    mt = importlib.import_module(MT_MOD)
+    errors = importlib.import_module('falcon.errors')
+    rnd = random.Random(1105 + int(seed or 0))
+    n = 40000 if tier == 'thorough' else 6000
+    failures = []
+
+    def run(fn, *a):
+        try:
+            return ('value', fn(*a))
+        except Exception as e:  # noqa: BLE001
+            return ('raise', type(e))
+
+    for case in range(n):
+        members = [_gen_range(rnd) for _ in range(rnd.choice([1, 1, 2, 3, 4, 6]))]
+        if rnd.random() < 0.15:
+            members.append(rnd.choice(members))  # duplicates
+        header = ','.join(t for t, _ in members)
+        ranges = [r for _, r in members]
+        cands = [_gen_type(rnd) for _ in range(rnd.choice([1, 2, 3, 4]))]
+        # quality
+        ttext, typ = cands[0]
+        if typ is None:
+            want = ('raise', errors.InvalidMediaType)
+        elif any(r is None for r in ranges):
+            want = ('raise', errors.InvalidMediaRange)
+        else:
+            want = ('value', _ref_quality(typ, ranges))
+        got = run(mt.quality, ttext, header)
+        if got != want:
+            failures.append({'obligation': 'bounded:quality-on-text-equals-specification', 'media_type': ttext, 'header': header, 'want': repr(want), 'got': repr(got)})
+        # best_match
+        want_b = None
+        for ct, c in cands:
+            if c is None:
+                want_b = ('raise', errors.InvalidMediaType)
+                break
+            if any(r is None for r in ranges):
+                want_b = ('raise', errors.InvalidMediaRange)
+                break
+        if want_b is None:
+            best, best_q = '', 0.0
+            for ct, c in cands:
+                q = _ref_quality(c, ranges)
+                if q > best_q:
+                    best, best_q = ct, q
+            want_b = ('value', best)
+        got_b = run(mt.best_match, [ct for ct, _ in cands], header)
+        if got_b != want_b:
+            failures.append({'obligation': 'bounded:best_match-on-text-equals-specification', 'media_types': [ct for ct, _ in cands], 'header': header,
+                             'want': repr(want_b), 'got': repr(got_b)})
+        if len(failures) >= 20:
+            break
+    return [{'name': 'C11 text level: quality / best_match on generated Accept headers vs the specification computed from the generating structure',
+             'bound': '%d random headers (1-7 ranges; wildcards, parameters in any case, quoted values without commas, q with 0-4 digits, duplicates, '
+                      'optional whitespace, invalid members) x 1-4 candidates, seed %d' % (n, 1105 + int(seed or 0)),
+             'cases': n, 'failures': failures[:20]}]
+
+
+# ---------------------------------------------------------------------------
+
+KILLS = [
+    # the 5-tuple: type and subtype components swapped
+    ('falcon/util/mediatypes.py', "        return (main_matches, sub_matches, exact_match, len(matching), self.quality)\n",
+     "        return (sub_matches, main_matches, exact_match, len(matching), self.quality)\n", '_MediaRange.match_score#component-1-main-type-exact-not-wildcard'),
+    # cache_clear() removed from __setitem__
+    ('falcon/media/handlers.py',
+     "        super().__setitem__(key, value)\n\n        # NOTE(kgriffs): When the mapping changes, we do not want to use a\n        #   cached handler from the previous mapping, in case it was\n"
+     "        #   replaced.\n        self._resolve.cache_clear()  # type: ignore[attr-defined]\n",
+     "        super().__setitem__(key, value)\n", 'Handlers.__setitem__#resolver-cache-cleared-after-the-write'),
+    # a q=0 candidate can win
+    ('falcon/util/mediatypes.py', "        if best_quality > 0.0:\n", "        if best_quality >= 0.0:\n", 'mediatypes:best_match#empty-string-iff-no-candidate-has-positive-quality'),
+    # exact parameter match: polarity flipped
+    ('falcon/util/mediatypes.py', "        exact_match = 0 if mr_pnames ^ mt_pnames else 1\n", "        exact_match = 1 if mr_pnames ^ mt_pnames else 0\n",
+     '_MediaRange.match_score#component-3-parameter-names-match-exactly'),
+    # a wildcard on the media type side is no longer honoured
+    ('falcon/util/mediatypes.py', "        if self.main_type == '*' or media_type.main_type == '*':\n", "        if self.main_type == '*':\n",
+     '_MediaRange.match_score#no-match-iff-types-or-subtypes-differ-without-wildcard-or-a-shared-parameter-differs'),
+    # values of shared parameters are no longer compared
+    ('falcon/util/mediatypes.py', "        for pname in matching:\n            if self.params[pname] != media_type.params[pname]:\n                return self._NOT_MATCHING\n", "",
+     '_MediaRange.match_score#no-match-iff-types-or-subtypes-differ-without-wildcard-or-a-shared-parameter-differs'),
+    # number of matching parameters ranked above the exact parameter match
+    ('falcon/util/mediatypes.py', "        return (main_matches, sub_matches, exact_match, len(matching), self.quality)\n",
+     "        return (main_matches, sub_matches, len(matching), exact_match, self.quality)\n", '_MediaRange.match_score#component-3-parameter-names-match-exactly'),
+    # q upper bound dropped
+    ('falcon/util/mediatypes.py', "        if not (0.0 <= q <= 1.0) or not math.isfinite(q):\n", "        if not (0.0 <= q) or not math.isfinite(q):\n",
+     '_MediaRange.parse#invalid-media-range-iff-q-is-not-a-real-number-in-0..1'),
+    # q validated but not used
+    ('falcon/util/mediatypes.py', "        return cls(main_type, subtype, q, params)\n", "        return cls(main_type, subtype, 1.0, params)\n", '_MediaRange.parse#quality-is-the-given-q'),
+    # the least specific range wins
+    ('falcon/util/mediatypes.py', "    most_specific = max(\n", "    most_specific = min(\n", 'mediatypes:quality#quality-is-q-of-the-most-specific-matching-range-highest-q-among-equals'),
+    # InvalidMediaType swallowed by best_match
+    ('falcon/util/mediatypes.py',
+     "    except errors.InvalidMediaType:\n        # NOTE(vytas): Do not swallow instances of InvalidMediaType\n        #   (it a subclass of ValueError).\n        raise\n", "",
+     'mediatypes:best_match#malformed-input-surfaces-as-the-documented-value-error'),
+    # cache_clear() removed from __delitem__
+    ('falcon/media/handlers.py',
+     "        super().__delitem__(key)\n\n        # NOTE(kgriffs): Similar to __setitem__(), we need to avoid resolving\n        #   to a cached handler that was removed.\n"
+     "        self._resolve.cache_clear()  # type: ignore[attr-defined]\n",
+     "        super().__delitem__(key)\n", 'Handlers.__delitem__#resolver-cache-cleared-after-the-write'),
+    # cache cleared before the write instead of after it
+    ('falcon/media/handlers.py',
+     "        super().__delitem__(key)\n\n        # NOTE(kgriffs): Similar to __setitem__(), we need to avoid resolving\n        #   to a cached handler that was removed.\n"
+     "        self._resolve.cache_clear()  # type: ignore[attr-defined]\n",
+     "        self._resolve.cache_clear()\n        super().__delitem__(key)\n", 'Handlers.pop#cache-epoch-equals-data-epoch'),
+    # the copy shares the original's resolver (and its cache)
+    ('falcon/media/handlers.py', "        return handlers_cls(self.data)\n", "        other = handlers_cls(self.data)\n        other._resolve = self._resolve\n        return other\n",
+     'Handlers.copy#copy-has-its-own-resolver'),
+    # */* no longer falls back to the default type
+    ('falcon/media/handlers.py', "            if media_type == '*/*' or not media_type:\n", "            if not media_type:\n",
+     'Handlers._create_resolver#matcher-consulted-exactly-when-there-is-no-exact-key'),
+    # (None, None, None) instead of the 415 that was asked for
+    ('falcon/media/handlers.py', "                    if raise_not_found:\n", "                    if not raise_not_found:\n", 'Handlers._create_resolver#no-designated-handler-is-a-415'),
+    # candidates and header swapped
+    ('falcon/media/handlers.py', "        result = mediatypes.best_match(all_media_types, media_type)\n", "        result = mediatypes.best_match(media_type, all_media_types)\n",
+     'handlers:_best_match#asks-best-match-once-with-the-keys-as-candidates-and-the-type-as-header'),
+    # a malformed Accept header counts as accepting
+    ('falcon/request.py', "            return mediatypes.quality(media_type, accept) != 0.0\n        except ValueError:\n            return False\n",
+     "            return mediatypes.quality(media_type, accept) != 0.0\n        except ValueError:\n            return True\n",
+     'Request.client_accepts#malformed-header-or-type-means-not-accepted'),
+]
+HARMLESS = [
+    ('falcon/util/mediatypes.py',
+     "        matching = mr_pnames & mt_pnames\n        for pname in matching:\n            if self.params[pname] != media_type.params[pname]:\n                return self._NOT_MATCHING\n\n"
+     "        return (main_matches, sub_matches, exact_match, len(matching), self.quality)\n",
+     "        shared = mt_pnames & mr_pnames\n        for name in shared:\n            if media_type.params[name] != self.params[name]:\n                return self._NOT_MATCHING\n\n"
+     "        return (main_matches, sub_matches, exact_match, len(shared), self.quality)\n"),
+    ('falcon/media/handlers.py', "        handlers_cls = type(self)\n        return handlers_cls(self.data)\n", "        return type(self)(self.data)\n"),
+    ('falcon/util/mediatypes.py', "        if best_quality > 0.0:\n            return matching\n", "        if not best_quality <= 0.0:\n            return matching\n"),
+]
+
+ASSUMPTIONS = [
+    'q values: the code only orders q values (==, !=, <, <=, >, >= among themselves and against 0.0 / 1.0) and passes them through, so a q is an integer number of '
+    'thousandths (symbolic, 0..1000 after validation; any integer before it); every order type of finitely many reals in [0, 1] is realised. float() results nan / +inf / -inf '
+    'are separate values with IEEE comparison semantics (class QV)',
+    'float(text) denotes the number written in the text or raises ValueError; which of {no number, finite n/1000, nan, +inf, -inf} a q text denotes is chosen by the harness '
+    '(all explored); TypeError cannot occur (parameter values are str)',
+    'parameter maps: 0..2 names out of {charset, version, profile} on each side (49 shapes), symbolic values; match_score treats names uniformly (frozenset algebra), '
+    'so larger parameter sets are not covered by the proof, only by the bounded stand-in',
+    'header.split(",") returns at least one member (str.split contract), so quality() never sees an empty range tuple (max() of nothing would raise a bare ValueError)',
+    'callee contracts used at call sites are the ones proved here: match_score (sentinel below every match, quality 0.0), quality (q in 0..1 or InvalidMediaType/InvalidMediaRange), '
+    'best_match ("" or a candidate or InvalidMediaType)',
+    'functools.lru_cache (CPython: falcon.util.misc._lru_cache_for_simple_logic IS functools.lru_cache): the wrapper memoises results per argument tuple until cache_clear(), '
+    'does not memoise exceptions, and calls the wrapped function otherwise (class GhostLru). On PyPy the decorator is a no-op cache, trivially coherent',
+    'stdlib: the source files next to the running collections / _collections_abc modules are the code that runs -- checked per method by recompiling the file and comparing '
+    'byte code, names and constants with the loaded function (clause stdlib-source-text-is-the-loaded-byte-code). The check interpreter is python3-vt 3.11; '
+    'the direct-writer scan must be re-run under the deployment interpreter',
+    'dict keys: three distinct concrete media-type names; a mapping distinguishes keys only by equality (existing key / new key explored). Handler objects are truthy opaque objects',
+    'BOUNDARY (not counted as a violation): `handlers |= other` (UserDict.__ior__) and copy.copy(handlers) (UserDict.__copy__) write / share state without going through '
+    'Handlers.__setitem__; neither is in the operation list of the property (set/delete/update/pop/clear/copy). After `handlers |= {...}` the resolver cache IS stale',
+    'direct mutation of handlers.data, or replacing handlers._resolve, from outside the class is outside the public interface',
+]
+NOT_DECIDED = [
+    'parse_header / _parse_media_type_header / _parse_media_ranges tokenisation (string scanning, split on ";" "," "="): bounded stand-in only (6000 / 40000 generated headers, text vs structure)',
+    'quality: range lists of length 1..3 unrolled (4 in the thorough tier); best_match: candidate lists of length 0..3 unrolled; no invariant over max()',
+    'match_score: parameter-name sets of size <= 2 over three names unrolled (the loop over shared names is unrolled, not cut by an invariant)',
+    'known deviations of the tokeniser from the RFC 9110 grammar, seen while probing, outside the documented contract: a comma inside a quoted parameter value splits the member '
+    '(quality("text/plain", \'text/plain;a="x,y"\') raises InvalidMediaRange); empty list members ("a/b, ,c/d" or a trailing comma) raise InvalidMediaRange; type and subtype '
+    'are compared case-sensitively ("TEXT/plain" does not match "text/plain"); float() accepts q=1e-1 and q=0_1',
+    'UserDict / MutableMapping methods that write .data directly are found by a syntactic scan (ast walk for stores to <x>.data / __dict__["data"] / mutator calls on <x>.data); '
+    'the mixins pop / popitem / clear / update / setdefault are executed from source, the rest of the family is only scanned',
+    'Request.client_accepts_json / _xml / _msgpack (one-line wrappers of client_accepts), ASGI Request (inherits both methods unchanged)',
+    'options.media_handlers wiring in App / Request / Response (which Handlers object is consulted) -- C12 stubs Handlers._resolve with the contract proved here',
+    'termination',
+]
+TRUSTED = [
+    'ghost instrumentation in contracts/C11_negotiation.py: Ghost, GDict (a dict subclass that counts every mutation), WatchedFields / watched_class (rebinding of .data), GhostLru',
+    'model of dataclass-generated __init__ (assigns the fields in order) for _MediaRange / _MediaType',
+    'stdlib_function: private-name mangling applied to the stdlib AST (self.__marker -> self._MutableMapping__marker), default values taken from the loaded function object',
+    'stubs: ParseHeaderStub, RangeModel, Opaque, BestMatchContract, Handler, KeysOnly; opaque dependencies are rebound at module level while the subject runs (class patched)',
+    'pyvc models: max() returns the first maximal item (with and without key=), frozenset algebra on concrete names, math.isfinite, float (see ASSUMPTIONS)',
+]
